@@ -181,7 +181,9 @@ def _conc_cases(rng, big):
                 sc += [rng.randrange(0, 2)] * rng.choice([1, 1, 2, 3, 5, 8, 13])
             scheds.append(sc)
         if not big:
-            keep = scheds[:2] + rng.sample(scheds[2:], min(len(scheds) - 2, 26))
+            # always keep the schedules that stop the receiver inside its first receive while the transmitter runs to the end
+            window = [[1] * a + [0] * nt for a in range(1, 11)] if pre else []
+            keep = scheds[:2] + window + rng.sample(scheds[2:], min(len(scheds) - 2, 18))
             scheds = keep
         for sc in scheds:
             cases.append(dict(base, sched=sc))
